@@ -163,6 +163,76 @@ def pos(e):
     return e.replace(sp.Abs, drop)
 
 
+def far_switch(rep, prop, F, f, scalar, kind, site0, q, q_small_when, thr, key, wsign):
+    """Two-sided comparison around theta0 = smallest positive zero of q."""
+    try:
+        roots = [r for r in sp.solve(q, J.TH) if r.is_real and r > 0]
+        th0 = min(roots)
+    except Exception as e:   # noqa
+        rep.broke("R-JET: cannot locate the zero of switch quantity %s in %s" % (q, site0))
+        return 0
+    d = sp.Symbol("d", positive=True)
+    try:
+        qd = sp.series(q.subs(J.TH, th0 - d), d, 0, 6).removeO()
+        c, p = sp.expand(qd).as_leading_term(d).as_coeff_exponent(d)
+        thr_val = float(thr.subs(J.EPS, EPS_VAL[scalar]))
+        d_s = (thr_val / abs(float(c))) ** (1.0 / float(p))
+    except Exception:   # noqa
+        rep.broke("R-JET: switch quantity %s is not a power of (theta0 - theta) in %s" % (q, site0))
+        return 0
+    # side A: condition `q < thr`-side taken, side B: the other; small-angle switches on their closed-form side
+    ja, ra = run_world(F, f, False, {key: q_small_when}, wsign)
+    jb, rb = run_world(F, f, False, {key: (not q_small_when)}, wsign)
+    pairs = []
+    if isinstance(ra, sp.Expr) and isinstance(rb, sp.Expr):
+        pairs.append(("return", ra, rb))
+    ta = {norm_key(k): v for k, v in ja.targets.items()}
+    tb = {norm_key(k): v for k, v in jb.targets.items()}
+    for k in sorted(set(ta) & set(tb)):
+        if isinstance(ta[k], sp.Expr) and isinstance(tb[k], sp.Expr):
+            pairs.append((k[:60], ta[k], tb[k]))
+    n = 0
+    clause = CLAUSE_OVERRIDE or ("value" if kind in ("exp", "log", "value") else "jac")
+    for what, a, b in pairs:
+        if a == b:
+            continue
+        n += 1
+        diff = sp.expand(pos(a) - pos(b))
+        # every matrix symbol is bounded by |theta| <= 4 near theta0; expand coefficients in d = theta0 - theta
+        total = 0.0
+        lead = None
+        groups = {}
+        for term in sp.Add.make_args(diff):
+            cpart, ncpart = term.args_cnc()
+            groups[tuple(ncpart)] = groups.get(tuple(ncpart), 0) + sp.Mul(*cpart)
+        try:
+            for ncpart, coeff in groups.items():
+                scale = 1.0
+                for x in ncpart:
+                    b_, e_ = x.as_base_exp()
+                    scale *= 4.0 ** (int(e_) * (1 if ja.orders.get(str(b_), 0) or jb.orders.get(str(b_), 0) else 0))
+                ser = sp.series(sp.together(coeff).subs(J.TH, th0 - d), d, 0, 6).removeO()
+                for t2 in sp.Add.make_args(sp.expand(ser)):
+                    if t2 == 0:
+                        continue
+                    c2, p2 = t2.as_coeff_exponent(d)
+                    cabs = sum(abs(float(a2.as_coeff_Mul()[0])) if a2.as_coeff_Mul()[0].is_number else 1.0 for a2 in sp.Add.make_args(sp.expand(c2)))
+                    total += scale * cabs * d_s ** float(p2)
+                    if lead is None or float(p2) < lead[0]:
+                        lead = (float(p2), "%s*d^%s" % (c2, p2))
+        except Exception as e:   # noqa
+            rep.broke("R-JET cannot expand %s:%s around theta = %s: %s" % (site0, what, th0, e))
+            continue
+        tol = TOL[scalar][clause]
+        site = "%s:%s [switch at theta=%s]:%s" % (site0, what, th0, scalar)
+        rep.obligation(total <= tol, lambda site=site, total=total, lead=lead, tol=tol, d_s=d_s, th0=th0: C.Finding(
+            prop, "R-JET.arms", site,
+            "the two sides of the switch on %s differ by up to %.2e at |theta| = %s - %.3g (leading term %s); tolerance %.0e" % (q, total, th0, d_s, lead[1] if lead else "0", tol),
+            f["file"], f["line"]))
+        rep.sample({"switch": site, "d_s": d_s, "bound": total, "tolerance": tol}, limit=30)
+    return n
+
+
 def analyse_function(rep, prop, F, f, scalar, kind):
     """Returns number of compared observables."""
     site0 = "%s::%s" % ((f.get("cls") or "").replace("manif::", ""), f["short"])
@@ -210,6 +280,26 @@ def analyse_function(rep, prop, F, f, scalar, kind):
                 rep.broke("R-JET: switch quantity %s at %s:%s is not a power of the rotation magnitude" % (q, site0, ln))
                 return n_obs
         th_s = max(ths)
+        # R-DIV (closed-form side of an entire function): a denominator may vanish only at theta = 0
+        if ENTIRE:
+            for den in jl.divisions:
+                if not isinstance(den, sp.Expr) or not den.has(J.TH):
+                    continue
+                d2 = pos(den)
+                try:
+                    p_ = sp.series(d2, J.TH, 0, 8).removeO().as_leading_term(J.TH).as_coeff_exponent(J.TH)[1]
+                    mono = sp.simplify(d2 / J.TH ** p_)
+                    ok = not mono.has(J.TH)
+                except Exception:   # noqa
+                    ok = False
+                n_obs += 1
+                rep.obligation(ok, lambda den=den: C.Finding(
+                    prop, "R-DIV.closed", "%s%s:%s" % (site0, case, str(den)[:60]),
+                    "the closed form divides by %s, which vanishes at a non-zero rotation magnitude (e.g. theta = pi): non-finite result for a finite input, although exp is entire" % den,
+                    f["file"], f["line"]))
+        # switches located away from theta = 0 (guards near pi ...): compare the two sides around the switch's own zero
+        for ln, q, q_small_when, thr, key in (jl.far_switches or []):
+            n_obs += far_switch(rep, prop, F, f, scalar, kind, site0, q, q_small_when, thr, key, wsign)
         # R-DIV: on the small-angle side nothing may be divided by a quantity that vanishes with the rotation
         for den in js.divisions:
             if not isinstance(den, sp.Expr) or not den.has(J.TH):
@@ -283,7 +373,7 @@ def analyse_function(rep, prop, F, f, scalar, kind):
             except J.Unknown as e:
                 rep.broke("R-JET cannot expand %s: %s" % (site, e))
                 continue
-            tol = TOL[scalar][clause]
+            tol = TOL[scalar][CLAUSE_OVERRIDE or clause]
             rep.obligation(not neg, lambda site=site, lead_closed=lead_closed: C.Finding(
                 prop, "R-JET.singular", site, "closed-form arm has a negative-order term (%s): non-finite / unbounded result just above the switch-over" % lead_closed,
                 f["file"], f["line"]))
@@ -295,14 +385,21 @@ def analyse_function(rep, prop, F, f, scalar, kind):
     return n_obs
 
 
-def check(rep, prop, select=None, scalars=("double", "float"), obs=None):
-    """obs: None = all observables, "return" = returned values only, "outputs" = written matrices only."""
-    global OBS_FILTER
-    OBS_FILTER = obs
-    return _check(rep, prop, select, scalars)
+def check(rep, prop, select=None, scalars=("double", "float"), obs=None, clause=None, entire=False):
+    """obs: None = all observables, "return" = returned values only, "outputs" = written matrices only.
+    clause: force the tolerance class ("value" / "jac") of every observable.
+    entire: the function is entire in theta (exp): closed-form denominators may vanish only at theta = 0."""
+    global OBS_FILTER, CLAUSE_OVERRIDE, ENTIRE
+    OBS_FILTER, CLAUSE_OVERRIDE, ENTIRE = obs, clause, entire
+    try:
+        return _check(rep, prop, select, scalars)
+    finally:
+        OBS_FILTER, CLAUSE_OVERRIDE, ENTIRE = None, None, False
 
 
 OBS_FILTER = None
+CLAUSE_OVERRIDE = None
+ENTIRE = False
 
 
 def _check(rep, prop, select=None, scalars=("double", "float")):
